@@ -114,8 +114,12 @@ def r03_3(prog, out):
                 out.undecided(key, prog.loc(b.id), "shape of AckId::next not recognised")
     if nxt is None:
         raise CheckBroken("AckId successor function (fn(&AckId) -> AckId) not found")
-    # (b) who writes the counter
-    writers = [(bid, e) for bid in R.actor_methods(R.sub_actor) for e in prog.effects(bid) if e.kind == "write" and e.touches(R.next_ack_id) and not e.chain]
+    # (b) who writes the counter.  A method of the id type itself that steps a `&mut AckId` (fn advance(&mut self) -> AckId
+    # { let cur = *self; *self = cur.next(); cur }) is the counter's own API: a call of it on the counter is a write *and* the read.
+    steppers = {b.id: stepper_ok(prog, b.id, nxt) for b in prog.facts.lib_bodies()
+                if b.impl_self == ackid and not b.impl_trait and b.kind == "AssocFn" and b.arg_count == 1 and b.local_ty(1) == "&mut " + ackid}
+    writers = [(bid, e) for bid in R.actor_methods(R.sub_actor) for e in prog.effects(bid) if e.kind == "write" and e.touches(R.next_ack_id)
+               and (not e.chain or (len(e.chain) == 1 and e.chain[0][0] in steppers))]
     pop_ids = {bid for bid, _ in R.poppers()}
     for bid, e in writers:
         key = "counter-writer:%s" % prog.short(bid)
@@ -135,6 +139,17 @@ def r03_3(prog, out):
         for bb, t in news:
             o = prog.receiver_origin(bi, t.args[1])
             from props.c09 import cells_of
+            if o.kind == "call" and not o.path and bi.call_at(o.data).callee is not None and prog.qual(bi.body, bi.call_at(o.data).callee.target) in steppers:
+                st_call = bi.call_at(o.data)
+                gid = prog.qual(bi.body, st_call.callee.target)
+                recv = prog.receiver_origin(bi, st_call.args[0])
+                if R.next_ack_id not in recv.cells():
+                    out.violation(key, bi.loc(bb), "the delivery's ack id is stepped from something else than the lease counter (%r)" % recv)
+                elif steppers[gid] is True:
+                    out.holds(key, bi.loc(bb), "id = %s(&mut counter): returns the current value and advances the counter with AckId::next in one step" % prog.short(gid))
+                else:
+                    out.violation(key, prog.loc(gid), "%s does not hand out the current value and advance the counter by AckId::next: %s" % (prog.short(gid), steppers[gid]))
+                continue
             if R.next_ack_id not in cells_of(prog, bi, o):
                 out.violation(key, bi.loc(bb), "the delivery's ack id does not come from the lease counter (%r)" % o)
                 continue
@@ -155,6 +170,29 @@ def r03_3(prog, out):
                 out.violation(key, bi.loc(w.bb), "the lease counter is not advanced with AckId::next of its current value")
             else:
                 out.violation(key, bi.loc(bb), "a path hands out a message without advancing the lease counter: the next delivery reuses the ack id")
+
+
+def stepper_ok(prog, gid, nxt):
+    """fn(&mut AckId) -> AckId: True iff it returns the old value and stores AckId::next(old value) on every path"""
+    bi = prog.info(gid)
+    b = bi.body
+    writes = [(blk.idx, i, s) for blk in b.blocks if not blk.cleanup for i, s in enumerate(blk.stmts)
+              if s.k == "assign" and s.lhs.local == 1 and s.lhs.proj == ["deref"]]
+    if len(writes) != 1:
+        return "%d stores through the parameter" % len(writes)
+    wbb, wi, ws = writes[0]
+    wo = bi.trace(ws.rv.ops[0]) if ws.rv.ops else None
+    if not (wo is not None and wo.kind == "call" and prog.qual(b, bi.call_at(wo.data).callee.target) == nxt):
+        return "the stored value is not AckId::next(..)"
+    arg = bi.trace(bi.call_at(wo.data).args[0])
+    if not (arg.kind == "param" and arg.data == 1 and not arg.fields()):
+        return "AckId::next is not applied to the current value"
+    ret = bi.trace(0)
+    if not (ret.kind == "param" and ret.data == 1 and not ret.fields()):
+        return "the returned id is not the value the counter had before the step"
+    if bi.cfg.escapes(0, {wbb}, after=False) is not None:
+        return "a path returns without advancing the counter"
+    return True
 
 
 def removal_sources(prog, R, sl):
